@@ -20,6 +20,9 @@ T = {
  "C10": ("property-based testing (byte-stream PBT, refint two's-complement model) + libFuzzer in thorough",
          "Generated-input search over the mpz bit functions (all sign combinations, negatives with low zero limbs, -2^k, bit indices at/above the top) and the mpn logical functions; every result is compared with an independent model of the infinitely sign-extended two's-complement string, incl. the 'largest mp_bitcnt_t' answers. Exploration: exact executable oracle for a universally quantified property.",
          "DESIGN.md section 5 C10"),
+ "C06": ("property-based testing (byte-stream PBT, string grammar with must-accept / must-reject classes, refint radix oracle) + libFuzzer in thorough",
+         "Generated-input search over get_str/out_str/sizeinbase/mpn_get_str (every base 2..62, -2..-36, mpn up to 256; exact-size buffers under ASan) and set_str/init_set_str/inp_str/mpn_set_str/mpq_set_str on strings produced by a grammar (prefixes, case rules, white space, leading zeros) and on mutations that must be rejected; values and digit strings are decided by an independent reference conversion, plus the get_str->set_str/inp_str round trip. Exploration: exact executable oracle; strings whose status the manual leaves open are not asserted.",
+         "DESIGN.md section 5 C06"),
 }
 built = [i for i in ids if i in T and os.path.exists(os.path.join(ROOT, "props", i + ".cc")) or os.path.exists(os.path.join(ROOT, "props", i + "_run.py"))]
 checks = []
